@@ -244,10 +244,12 @@ def run(ctx):
     ap = P.fn(CONN + '::append_pending')
     rs = q.field_calls(ap, 'connection::pending_output_', 'resize')
     mc = [i for i in ap.calls() if ap.callee(i) == 'memcpy']
-    okap = len(rs) == 1 and len(mc) == 1 and any(q.short_of(ap.callee(j)) == 'bytes_count' for j in ap.calls(rs[0])) and any(q.short_of(ap.callee(j)) == 'size' for j in ap.calls(rs[0])) and q.before(ap, rs[0], mc[0])
+    okap = len(rs) == 1 and len(mc) == 1 and any(q.short_of(ap.callee(j)) == 'bytes_count' for j in ap.calls(rs[0])) and q.before(ap, rs[0], mc[0]) and \
+        (any(q.short_of(ap.callee(j)) == 'size' for j in ap.calls(rs[0])) or
+         any(v is not None and any(q.short_of(ap.callee(j)) == 'size' for j in ap.calls(v)) for r_ in ap.subtree_refs(ap.args(rs[0])[0]) if r_.startswith('v:') for (_, v) in ap.defs_of_var(r_)))
     posv = [d['ref'] for i in ap.all_nodes() if ap.N(i)['k'] == 'DeclStmt' for d in ap.N(i)['decls'] if d['name'] == 'pos']
     okap = okap and posv and posv[0] in ap.subtree_refs(ap.args(mc[0])[0]) and bool(q.enclosing_loops(ap, mc[0])) and \
-        any(ap.N(w)['k'] == 'CompoundAssignOperator' and ap.N(w).get('op') == '+=' and ap.ref_of(ap.N(w)['ch'][0]) == posv[0] for w in ap.all_nodes())
+        any(ap.N(w)['k'] == 'CompoundAssignOperator' and ap.N(w).get('op') == '+=' and ap.ref_of(ap.N(w)['ch'][0]) == posv[0] and q.enclosing_loops(ap, w) for w in ap.all_nodes())
     ctx.check(okap, R8, 'append_pending:grow-by-bytes_count-then-copy-each-entry-at-advancing-offset', 'pending buffer is not grown by the size of the new data / entries are not appended one after another', ap.where)
     ctx.floor(R1, 9)
     ctx.floor(R2, 8)
